@@ -246,10 +246,19 @@ Definition tokenize_model (cfg : bcfg) (tk : tokenizer) (t0 : list N) : res (lis
 Definition assoc {A} (l : list (N * A)) (d : A) (k : N) : A :=
   match find (fun x => N.eqb (fst x) k) l with Some x => snd x | None => d end.
 
-(* the input-text plugins the end-to-end correspondence configures (DefaultInputTextPlugin needs the Unicode oracle tables
-   of C07's own correspondence and is left to it) *)
-Inductive plugin_desc := PD_psm (marks sym : list N).
-Definition plugin_of (d : plugin_desc) : NB.plugin := match d with PD_psm marks sym => NB.P_psm (Nz.mem_n marks) sym end.
+(* the input-text plugins the end-to-end correspondence configures.  DefaultInputTextPlugin comes with the Unicode oracle
+   values (std case mapping, unicode-normalization) of the code points of the case's text, the part of rewrite.def that can
+   apply to it, and is_nfkc_quick of the whole text, exactly as C07's own cases do (Model/Normalize.v odata); it is
+   configured as the FIRST plugin only, so the text it sees is the original one. *)
+Inductive plugin_desc :=
+| PD_psm (marks sym : list N)
+| PD_default (o : Nz.odata) (tb : Nz.table) (ignl : list N) (qc_text : bool).
+Definition plugin_of (d : plugin_desc) : NB.plugin :=
+  match d with
+  | PD_psm marks sym => NB.P_psm (Nz.mem_n marks) sym
+  | PD_default o tb ignl qc =>
+      NB.P_default (Nz.o_lower o) (Nz.o_nfkc o) (Nz.o_qc o) (Nz.o_upper o) tb (Nz.mem_n ignl) (fun _ => qc)
+  end.
 
 Definition mk_tokenizer (pls : list plugin_desc) (cats : list (N * N)) (lexs : list (string * string))
            (params : list (N * (N * N * Z))) (winfos : list (N * winfo)) (provs : list O.provider)
